@@ -72,7 +72,9 @@ func (s *Sink) Write(p []byte) (int, error) {
 		e := &InjErr{K: s.Calls}
 		s.Errs = append(s.Errs, e)
 		n := 0
-		if s.Partial && len(p) > 1 {
+		// only the first failing call accepts a prefix (a disk that just filled up);
+		// afterwards nothing fits any more
+		if s.Partial && len(p) > 1 && s.Calls == s.FailFrom {
 			n = len(p) / 2
 			s.keep(p[:n])
 		}
